@@ -152,7 +152,7 @@ StartInvocation ==
 StartInvocationLoadFail ==
   /\ ist = "Idle" /\ ~ExecTerminal /\ inv < MaxInv /\ WithPaging /\ apifails < MaxApiFails
   /\ outcome \in {"none", "CRASHED", "RAISED"} \/ (outcome = "PENDING" /\ wake)
-  /\ \E i \in OpIdx : be[i].st # "ABSENT"
+  \* (also with an empty history: the backend may announce a further page that turns out to be empty)
   /\ inv' = inv + 1 /\ outcome' = "RAISED" /\ apifails' = apifails + 1 /\ wake' = FALSE /\ chg' = {}
   /\ UNCHANGED <<be, armed, execRes, ist, loc, q, pfail, pc, ph, nph, cur, att, err, rcmode, val, crashes, lg>>
   /\ UNCHANGED monvars
